@@ -171,7 +171,11 @@ Lost(d) ==
   LET R == Rebuild(d)
       must == {c \in DOMAIN G.sess : G.sess[c] = "must"}
   IN  {[c |-> c, what |-> "session", x |-> ""] : c \in {c \in must : c \notin R.qs}}
-      \cup UNION {{[c |-> c, what |-> "sub", x |-> f] :
+      \cup UNION {{[c |-> c, x |-> f,
+                     what |-> IF Get(Get(R.msub, c, Nil), f, NoSub) = NoSub THEN "sub-missing"
+                              ELSE IF f \notin DOMAIN GSub(c) THEN "sub-of-earlier-session"
+                              ELSE IF NoSub \in Allowed(c, f) THEN "sub-after-unsuback"
+                              ELSE "sub-options"] :
                      f \in {f \in DOMAIN GSub(c) \cup DOMAIN Get(R.msub, c, Nil) :
                               Get(Get(R.msub, c, Nil), f, NoSub) \notin Allowed(c, f)}} : c \in must}
       \cup UNION {{[c |-> c, what |-> "msg", x |-> m] :
